@@ -1,0 +1,18 @@
+//go:build verif
+
+/*
+Copyright 2026 Codenotary Inc. All rights reserved.
+
+SPDX-License-Identifier: BUSL-1.1
+*/
+
+package replication
+
+// simTryMutex probes the replicator mutex for the simulation scheduler's lock gate.
+func (txr *TxReplicator) simTryMutex() bool {
+	if txr.mutex.TryLock() {
+		txr.mutex.Unlock()
+		return true
+	}
+	return false
+}
